@@ -117,6 +117,14 @@ def gen_c16(tier, rng):
             ths.append(th)
         o = {"maxcells": rng.choice([2, 4, 8])} if kind in ("jdkadd", "jdkf") else {}
         s.append(conc.Scn("p%d" % i, kind, rnd_words(rng, 80), ths, "rand %d %d" % (scale(tier, 150, 1500), rng.randint(1, 1 << 30)), o))
+    # float adders beyond the modelled range (overflow to +-Inf, Inf-Inf = NaN): single-threaded scripts against a plain
+    # float64 (no model replay: these values are outside the exactly-representable domain the model covers)
+    for i in range(scale(tier, 30, 300)):
+        kind = ["jdkf", "atomicf"][i % 2]
+        ops = []
+        for _ in range(rng.choice([4, 7, 10])):
+            ops.append(rng.choice(["h1", "h1", "h-1", "a3", "i", "s", "s", "q", "r", "w5", "a-2"]))
+        s.append(conc.Scn("h%d" % i, kind, rnd_words(rng, 30), [ops], "dfs 0 1", {"nomodel": 1, "maxcells": 2}))
     # grow under contention / Store / grow again / read: stale cells must not come back
     for i in range(scale(tier, 16, 120)):
         kind = ["jdkadd", "jdkf"][i % 2]
